@@ -6,7 +6,7 @@ deriv eval run on symbolic coefficients, and the obligation each traced instance
 
 writes  coq/gen/Gen_kern_poly_<op>_<orders>.v   the coefficient expressions the CURRENT source computes
         coq/gen/obl/C20_poly_<...>.v            obligations: hand-written schemas over the list model
-                                                (C20Model / C20Lemmas) instantiated on the emitted terms
+                                                (C20Model / C20Real) instantiated on the emitted terms
         _build/C20/trace_manifest.json
 
 Instances: add sub mul for every order pair 0..5 (36 each), neg deriv eval for orders 0..5,
@@ -149,10 +149,10 @@ for _o1 in range(MAXORD + 1):
 
 
 OBL_HEADER = '''(* GENERATED on every run by tools/regen/tracer_c20.py. Do not edit.
-   Obligations of traced kernel %s: hand-written schemas (C20Model / C20Lemmas) instantiated on the
+   Obligations of traced kernel %s: hand-written schemas (C20Model / C20Real) instantiated on the
    coefficient expressions emitted from the current source. *)
 From Coq Require Import Reals List.
-From PM Require Import C20Model C20Lemmas.
+From PM Require Import C20Model C20Real.
 From PMGen Require Import Gen_kern_%s.
 Import ListNotations.
 Local Open Scope R_scope.
